@@ -69,8 +69,9 @@ pub fn profile(prop: &str) -> Profile {
     match prop {
         "C04" => Profile {
             prop: "C04",
-            w: [44, 8, 6, 6, 6, 1, 2, 3, 3, 3, 0, 1, 0, 0, 0, 3, 0, 1],
+            w: [44, 8, 6, 6, 6, 1, 2, 3, 3, 3, 1, 1, 0, 0, 0, 3, 0, 1],
             size_w: [8, 30, 32, 20, 10],
+            drain_pct: 5,
             ..base
         },
         "C05" => Profile {
@@ -115,7 +116,7 @@ pub fn profile(prop: &str) -> Profile {
             mode: Mode::FailEnum,
             min_ops: 8,
             max_ops: 22,
-            w: [26, 16, 14, 24, 4, 1, 0, 1, 1, 1, 0, 2, 0, 0, 0, 0, 0, 0],
+            w: [26, 16, 14, 24, 4, 1, 0, 1, 1, 1, 2, 2, 0, 0, 0, 0, 0, 0],
             size_w: [10, 45, 25, 15, 5],
             obs_level: 1,
             ..base
@@ -133,7 +134,7 @@ pub fn profile(prop: &str) -> Profile {
         },
         "C15" => Profile {
             prop: "C15",
-            w: [50, 6, 4, 4, 4, 1, 2, 1, 1, 1, 0, 0, 0, 0, 22, 2, 0, 0],
+            w: [50, 6, 4, 4, 4, 1, 2, 1, 1, 1, 1, 0, 0, 0, 22, 2, 0, 0],
             size_w: [5, 30, 35, 20, 10],
             blocker_pct: 80,
             ..base
@@ -144,6 +145,7 @@ pub fn profile(prop: &str) -> Profile {
             obs_level: 1,
             odd_values_pct: 40,
             max_extra: 3,
+            drain_pct: 20,
             ..base
         },
         "C17" => Profile {
@@ -161,6 +163,7 @@ pub fn profile(prop: &str) -> Profile {
             kind_w: [35, 12, 12, 14, 22, 5],
             size_w: [30, 65, 5, 0, 0],
             obs_level: 1,
+            drain_pct: 25,
             ..base
         },
         // base histories for the concurrent mode
@@ -236,6 +239,8 @@ impl Gen {
             dvals.push(long_value('q', 300, "zz"));
             dvals.push("dé".into());
             dvals.push("a:b".into());
+            dvals.push("a".into());
+            dvals.push("a:b:c".into());
         }
         let kinds_regular = vec![1u16, 4, 7, 9999, 40000, 65535, 2, 1059];
         let kinds_repl = vec![0u16, 3, 10000, 10001, 19999];
@@ -306,9 +311,30 @@ impl Gen {
     fn random_tags(&mut self, kind: u16) -> Vec<Vec<String>> {
         let mut tags = vec![];
         if is_param(kind) {
+            // now and then other tags (an empty tag, a value-less tag, an ordinary one) come
+            // before the address-defining tag
+            if self.rng.chance(1, 8) {
+                match self.rng.below(4) {
+                    0 => tags.push(vec![]),
+                    1 => tags.push(vec!["t".to_string()]),
+                    2 => tags.push(vec!["t".to_string(), self.tag_value()]),
+                    _ => tags.push(vec!["D".to_string(), self.rng.pick(&self.dvals).clone()]),
+                }
+            }
             // the address: the FIRST d tag, always with a value
             let d = self.rng.pick(&self.dvals).clone();
             tags.push(vec!["d".to_string(), d]);
+        }
+        if self.rng.chance(1, 14) {
+            // NIP-40 expiration, before / at / after the simulated clock (the store's contract
+            // does not mention it: an expired event is an event like any other)
+            let t = match self.rng.below(4) {
+                0 => self.clock.saturating_sub(self.rng.range(1, 500)),
+                1 => self.clock,
+                2 => self.clock.saturating_add(self.rng.range(1, 500)),
+                _ => 0,
+            };
+            tags.push(vec!["expiration".to_string(), t.to_string()]);
         }
         let n = self.rng.weighted(&[25, 30, 25, 12, 8]);
         for _ in 0..n {
@@ -330,7 +356,7 @@ impl Gen {
                 }
                 _ => vec![],
             };
-            if is_param(kind) && t.first().map(|s| s == "d").unwrap_or(false) && tags.is_empty() {
+            if is_param(kind) && t.first().map(|s| s == "d").unwrap_or(false) && !tags.iter().any(|x| x.first().map(|s| s == "d").unwrap_or(false)) {
                 continue;
             }
             tags.push(t);
@@ -358,9 +384,15 @@ impl Gen {
         if kind == 1059 {
             // gift wrap: p tag naming an author in various positions
             let who = hex(&self.rng.pick(&self.authors).clone());
-            match self.rng.weighted(&[50, 20, 15, 15]) {
+            match self.rng.weighted(&[40, 20, 15, 15, 10]) {
                 0 => tags.insert(0, vec!["p".into(), who]),
                 1 => tags.push(vec!["p".into(), who]),
+                4 => {
+                    // two p tags: somebody else first, then the key
+                    let other = hex(&self.rng.bytes32());
+                    tags.insert(0, vec!["p".into(), who]);
+                    tags.insert(0, vec!["p".into(), other]);
+                }
                 2 => tags.push(vec!["p".into(), "other".into(), who]), // not the first value: must not count
                 _ => tags.push(vec!["P".into(), who]),
             }
@@ -561,6 +593,14 @@ impl Gen {
         }
         if self.rng.chance(1, 6) {
             tags.push(vec!["t".into(), "cleanup".into()]);
+        }
+        if self.rng.chance(1, 6) {
+            // tags that name another author without being targets (they give no authority)
+            let others: Vec<B32> = self.authors.iter().copied().filter(|a| *a != pk).collect();
+            if let Some(o) = others.first() {
+                let name = *self.rng.pick(&["p", "delegation", "P", "client"]);
+                tags.push(vec![name.to_string(), hex(o), "created_at>0".to_string()]);
+            }
         }
         self.rng.shuffle(&mut tags);
         // the request's own time: before / equal / after what it refers to
@@ -967,6 +1007,14 @@ impl Gen {
                     }
                 }
             }
+        }
+        if self.model.retrievable.is_empty() && self.rng.chance(1, 2) {
+            // a restart of a store in which nothing is retrievable (everything removed, or only
+            // ephemeral events ever stored), and one more event afterwards
+            ops.push(Op::Reopen(*self.rng.pick(&[ReopenKind::Drop, ReopenKind::Close, ReopenKind::Copy])));
+            let e = self.new_event();
+            self.apply_store_to_gen_model(&e);
+            ops.push(Op::Store(e));
         }
         Trace {
             cfg: Cfg {
